@@ -26,11 +26,11 @@ def add(fn, inp, what):
     viol.append({"function": fn, "input": inp, "what": what})
 
 
-def tf(second_order_type):
+def tf(second_order_type, stats_freq=1, sk_freq=1):
   so = second_order.Options(
       merge_dims=16, second_order_type=second_order_type,
-      shampoo_options=tf_shampoo.Options(block_size=4, update_preconditioners_freq=2, update_statistics_freq=1),
-      sketchy_options=tf_sketchy.Options(rank=2, update_freq=1))
+      shampoo_options=tf_shampoo.Options(block_size=4, update_preconditioners_freq=2, update_statistics_freq=stats_freq),
+      sketchy_options=tf_sketchy.Options(rank=2, update_freq=sk_freq))
   return lambda: tf_opt.tearfree(0.1, tf_opt.TearfreeOptions(
       grafting_options=grafting.Options(start_preconditioning_step=1, skip_preconditioning_rank1=True),
       second_order_options=so, momentum_options=momentum.Options()))
@@ -43,12 +43,24 @@ MAKERS = {
     "ds_compressed": lambda: ds.distributed_shampoo(0.1, block_size=8, start_preconditioning_step=1, compression_rank=2),
     "ds_fd": lambda: ds.distributed_shampoo(0.1, block_size=8, start_preconditioning_step=1, compression_rank=2,
                                             frequent_directions=True, reuse_preconditioner=True),
+    # every conditional region (statistics / preconditioner / sketch intervals > 1) closes over or receives state leaves
+    "ds_intervals": lambda: ds.distributed_shampoo(0.1, block_size=4, start_preconditioning_step=1, preconditioning_compute_steps=2,
+                                                   statistics_compute_steps=2, beta2=0.99),
+    "ds_compressed_intervals": lambda: ds.distributed_shampoo(0.1, block_size=8, start_preconditioning_step=1, compression_rank=2,
+                                                              preconditioning_compute_steps=3, statistics_compute_steps=2),
+    "ds_fd_intervals": lambda: ds.distributed_shampoo(0.1, block_size=8, start_preconditioning_step=1, compression_rank=2,
+                                                      frequent_directions=True, reuse_preconditioner=True, average_grad=True,
+                                                      statistics_compute_steps=2, preconditioning_compute_steps=2),
+    "ds_int8_intervals": lambda: ds.distributed_shampoo(0.1, block_size=4, start_preconditioning_step=1, statistics_compute_steps=3,
+                                                        best_effort_memory_usage_reduction=True, graft_type=ds.GraftingType.RMSPROP),
+    "tearfree_shampoo_intervals": tf(second_order.SecondOrderType.SHAMPOO, stats_freq=2),
+    "tearfree_sketchy_intervals": tf(second_order.SecondOrderType.SKETCHY, sk_freq=2),
     "sm3": lambda: sm3.sm3(0.1),
     "tearfree_shampoo": tf(second_order.SecondOrderType.SHAMPOO),
     "tearfree_sketchy": tf(second_order.SecondOrderType.SKETCHY),
 }
 T_ = 6
-ks = (1, 3) if tier == "quick" else (0, 1, 3, 5)
+ks = (1, 2, 3) if tier == "quick" else (0, 1, 2, 3, 4, 5)
 modes = ("eager",) if tier == "quick" else ("eager", "jit")
 shapes = {"w": (8, 6), "b": (6,)}
 
@@ -92,4 +104,4 @@ for name, mk in MAKERS.items():
         add(name, [mode, f"interrupted after step {k}"], f"raised {type(e).__name__}: {str(e)[:200]}")
 
 print(json.dumps({"cases": cases, "violations": viol,
-                  "bound": f"tier={tier}: 7 optimizer modes x interruption points {list(ks)} of a {T_}-step history x {list(modes)}, seed {seed}"}))
+                  "bound": f"tier={tier}: {len(MAKERS)} optimizer modes x interruption points {list(ks)} of a {T_}-step history x {list(modes)}, seed {seed}"}))
